@@ -11,7 +11,7 @@
       dhSecret      dh.compute_secret(peer KE data)                (ok / raises)
       cookie        HMAC(cookie_secret, spi_i | nonce | address)   (the expected cookie)
       authGen       _generate_auth_payload(...)                    ((method, data) / AuthenticationFailed)
-      authVerify    _verify_auth_payload(...)                      (ok / AuthenticationFailed)
+      authVerify    _verify_auth_payload(...)                      (verdict: ok / AuthenticationFailed)
       install       Xfrm.create_child_sa(...)                      (0 ok / 1 first NEWSA refused / 2 second refused)
       uniform       random.uniform(a, b)                           (ticks)
 
@@ -38,6 +38,7 @@ inductive TVal where
   | flag (b : Bool)
   | num (n : Nat)
   | auth (method : Nat) (data : Bytes)
+  | verdict (ok : Bool)          -- what `_verify_auth_payload` said about the peer's AUTH payload
   deriving DecidableEq, Repr
 
 /-- `bad` is set when the tape does not have the kind of value the model asks for (the model and the code consulted
@@ -365,6 +366,16 @@ def newXSa (conf : Conf) (now : Nat) (isInit : Bool) (peerSpi myAddr peerAddr : 
                    indices := conf.protect.map (·.index), myAddr := myAddr, peerAddr := peerAddr, cookie := false },
          ext := { conf := conf } }
 
+/-- "check cookie": when the controller handed this IKE_SA the cookie secret, the first COOKIE notification of the request must
+    carry HMAC(secret, SPIi | Ni | address) — the oracle value — or the request is answered with that cookie and nothing else -/
+def cookieGate (x : XSa) (request : Msg) : HM Unit :=
+  if x.core.cookie then do
+    let expected ← popBytes
+    match getNotifies request nCOOKIE false with
+    | [] => HM.raise (excCookie expected)
+    | (_, _, d) :: _ => if d ≠ expected then HM.raise (excCookie expected) else pure ()
+  else pure ()
+
 /-- `_process_ike_sa_negotiation_request(request, encrypted, old_sk_d)` run on the object in `sl`; returns the
     response payloads (SA, Nr, KEr) -/
 def negotiateIkeRequest (sl : Slot) (request : Msg) (encrypted : Bool) : HM (List Payload) := do
@@ -373,11 +384,7 @@ def negotiateIkeRequest (sl : Slot) (request : Msg) (encrypted : Bool) : HM (Lis
   let (keGroup, _) ← keOf (← getPayload request ptKE encrypted)
   let x ← getSlot sl
   -- cookie first: no negotiation state and no DH work before it is passed
-  if x.core.cookie then do
-    let expected ← popBytes
-    match getNotifies request nCOOKIE false with
-    | [] => HM.raise (excCookie expected)
-    | (_, _, d) :: _ => if d ≠ expected then HM.raise (excCookie expected) else pure ()
+  cookieGate x request
   match selectBest x.ext.conf.proposal sa with
   | none => HM.raise excNoProposal
   | some chosen0 =>
@@ -621,11 +628,12 @@ def popAuthGen : HM (Nat × Bytes) := do
   | some (.flag false) => HM.raise excAuthFailed
   | _ => markBad; pure (0, [])
 
+/-- `_verify_auth_payload`: nothing but an explicit positive verdict lets the caller go on -/
 def popAuthVerify : HM Unit := do
   match ← popVal with
-  | some (.flag true) => pure ()
-  | some (.flag false) => HM.raise excAuthFailed
-  | _ => markBad
+  | some (.verdict true) => pure ()
+  | some (.verdict false) => HM.raise excAuthFailed
+  | _ => do markBad; HM.raise excAuthFailed
 
 /-- `process_ike_auth_request` -/
 def processIkeAuthRequest (request : Msg) : HM HRes := do
